@@ -120,7 +120,17 @@ def split_url_table(ctx: Ctx):
            where(fi, fi.node), sample=f"{sorted(k[0] for k in auth_delims)}")
     # the minimum is kept: `if wdelim >= 0 and wdelim < delim: delim = wdelim`
     ctx.instance(rule)
-    mins = [e for e in r.by_kind("cond") if e.test[0] == "cmp" and e.test[1] in ("Lt", "LtE", "Gt", "GtE") and "find" in show(e.test) and "delim" in show(e.test)]
+    def is_find(t):
+        return t[0] == "call" and t[1][0] == "attr" and t[1][2] == "find" and len(t[2]) == 2 and t[2][0][0] == "elem"
+    mins = []
+    for e in r.by_kind("cond"):
+        t = e.test
+        if t[0] != "cmp" or t[1] not in ("Lt", "LtE", "Gt", "GtE"):
+            continue
+        small, big = (t[2], t[3]) if t[1] in ("Lt", "LtE") else (t[3], t[2])
+        # position < running minimum (a loop-carried variable), and the position then becomes the minimum
+        if is_find(small) and big[0] == "phi" and any(st.env.get(big[2]) == small for st in r.backedges.get(big[1], ())):
+            mins.append(e)
     ctx.ob(rule, fi.qual, "earliest terminator wins", bool(mins), "no comparison keeps the smallest terminator position", where(fi, fi.node),
            sample="position < current minimum")
     # ORD4: the fragment is split off before the query
@@ -228,10 +238,12 @@ def split_netloc_table(ctx: Ctx):
     lb = [(e, d) for e, dl, d, recv in ss if dl == "["]
     rb = [(e, d) for e, dl, d, recv in ss if dl == "]"]
 
-    def after_bracket(recv):
-        return any(t[0] == "call" and t[1][0] == "attr" and t[2] and t[2][0] == ("const", "]") for t in walk(recv))
-    port_after_bracket = [e for e, d, recv in colons if after_bracket(recv)]
-    plain = [e for e, d, recv in colons if not after_bracket(recv)]
+    def after_bracket(e, recv):
+        # the ':' is looked for in text cut at the ']' (partition / slice) or from an offset computed from the ']' search
+        return any(t[0] == "call" and t[1][0] == "attr" and t[2] and t[2][0] == ("const", "]")
+                   for x in (recv,) + tuple(e.args[1:]) for t in walk(x))
+    port_after_bracket = [e for e, d, recv in colons if after_bracket(e, recv)]
+    plain = [e for e, d, recv in colons if not after_bracket(e, recv)]
     guarded = [e for e in plain if any((not fv) and k[0] == "cmp" and k[1] == "In" and k[2] == ("const", "[") for k, fv in e.state.facts.items())]
     ok = bool(lb) and bool(rb) and bool(port_after_bracket) and bool(guarded) and all(d == "first" for _e, d in lb + rb)
     ctx.ob(rule, fi.qual, "host/port separator", ok,
